@@ -45,7 +45,8 @@ def suite_gauss(rng, n):
         elif r < 0.9:
             x = rng.choice(th) + rng.uniform(-1e-3, 1e-3) * rng.choice([1, 1e-6, 1e-12])
         else:
-            x = rng.choice([0.0, -0.0, 1e-300, -1e-300, 37.5, -37.5, 38.0, 40.0, -40.0, rng.uniform(-1e-3, 1e-3)])
+            x = rng.choice([0.0, -0.0, 1e-300, -1e-300, 37.5, -37.5, 38.0, 40.0, -40.0, rng.uniform(-1e-3, 1e-3),
+                            1e10, -1e10, 1e100, -1e100, 1.3e154, -1.3e154, 1.4e154, -1.4e154, 1e200, -1e200, 1e308, -1e308])
         c = {"op": "gauss", "fn": f, "x": x}
         if f in fns2:
             c["t"] = logu(rng, 1e-8, 1e-2) if rng.random() < 0.9 else rng.choice([1e-8, 1e-5, 8e-6, 1e-2, 1.25e-5])
@@ -247,7 +248,9 @@ def malformed_cases(kind, shape, ops=("rate", "pwin", "pdraw", "prank"), st=None
     good = [("I", i + 1) for i in range(n)]
     goodf = [("F", float(i) - 1.0) for i in range(n)]
     wellformed = [good, goodf, [("I", 0)] * n, [("I", -i) for i in range(n)], [("B", i % 2 == 0) for i in range(n)],
-                  [("F", -0.0)] * n, [("I", 1), ("F", 1.0)] + [("B", True)] * (n - 2), [("I", 2 ** 70 + i) for i in range(n)]]
+                  [("F", -0.0)] * n, [("I", 1), ("F", 1.0)] + [("B", True)] * (n - 2), [("I", 2 ** 70 + i) for i in range(n)],
+                  [("I", 10 ** 400 + i) for i in range(n)], [("I", -(1 << 1024) - i) for i in range(n)],
+                  [("F", 1e308), ("F", -1e308)] + [("I", 0)] * (n - 2)]
     for sel in ("ranks", "scores"):
         def call(v, other=N):
             return mk("rate", g(), ranks=v, scores=other) if sel == "ranks" else mk("rate", g(), ranks=other, scores=v)
